@@ -3,6 +3,7 @@ give, per path, its conditions, ordered effects and resulting value -- the as-bu
 table that rules compare with hand-written expectations."""
 import re
 
+import canon
 import hir as H
 import sym as S
 from core import Unrecognised
@@ -92,6 +93,13 @@ class Enumerator(object):
                 path.effects.append(s)
         return t
 
+    def add_pat_cond(self, path, vterm, pred, names):
+        cc = canon.cmp_conds(vterm, names) if names else None
+        if cc is not None:
+            path.conds = canon.simplify(path.conds + cc)
+        else:
+            path.conds = canon.simplify(path.conds + [(S.show(vterm), pred)])
+
     def helper_target(self, node):
         """A call of a crate-local helper the oracle vocabulary does not know and whose body branches:
         walked path-wise, as if its body stood at the call site."""
@@ -175,18 +183,23 @@ class Enumerator(object):
             cond = node['cond']
             if cond.get('k') == 'LetExpr':
                 outs = self.run(cond['init'], path)
+                ty = cond['init'].get('ty')
                 for p in outs:
                     if p.done:
                         out.append(p)
                         continue
                     v = p.value
-                    pt = H.pat_term(cond['pat'], True)
+                    pred, names = canon.pattern_pred(cond['pat'], ty)
                     tp = p.fork()
-                    tp.conds.append((S.show(v), pt))
+                    self.add_pat_cond(tp, v, pred, names)
                     self.ev.bind_pat(cond['pat'], v, tp.env)
                     out.extend(self.run(node['then'], tp))
                     ep = p.fork()
-                    ep.conds.append((S.show(v), 'not ' + pt))
+                    npred = canon.complement_pred(cond['pat'], ty)
+                    w = canon.whole(cond['pat'], ty)
+                    info = canon.variants_of(ty)
+                    nnames = (set(x[0] for x in info[1]) - w) if (info is not None and isinstance(w, set)) else None
+                    self.add_pat_cond(ep, v, npred, nnames)
                     if node.get('else') is not None:
                         out.extend(self.run(node['else'], ep))
                     else:
@@ -198,12 +211,11 @@ class Enumerator(object):
                 if p.done:
                     out.append(p)
                     continue
-                cs = S.show(p.value)
                 tp = p.fork()
-                tp.conds.append((cs, True))
+                tp.conds = canon.simplify(tp.conds + canon.cond(p.value, True))
                 out.extend(self.run(node['then'], tp))
                 ep = p.fork()
-                ep.conds.append((cs, False))
+                ep.conds = canon.simplify(ep.conds + canon.cond(p.value, False))
                 if node.get('else') is not None:
                     out.extend(self.run(node['else'], ep))
                 else:
@@ -217,14 +229,53 @@ class Enumerator(object):
                     out.append(p)
                     continue
                 v = p.value
+                ty = node['scrut'].get('ty')
+                earlier = []   # whole-variant sets taken by earlier unguarded arms (None: an arm that looks inside a variant)
+                guarded = []   # (arm, whole set) of earlier guarded arms: a later arm for the same variants runs only if the guard failed
+                info = canon.variants_of(ty)
+                allv = set(x[0] for x in info[1]) if info is not None else None
                 for a in node['arms']:
-                    ap = p.fork()
-                    ap.conds.append((S.show(v), H.pat_term(a['pat'], True)))
-                    self.ev.bind_pat(a['pat'], v, ap.env)
+                    pred, names = canon.pattern_pred(a['pat'], ty, earlier)
+                    if pred == 'unreachable':
+                        continue
+                    w = canon.whole(a['pat'], ty)
+                    # first-match semantics against earlier *guarded* arms: for the variants such an arm also
+                    # covers, this arm runs only if that guard failed; for the others the guard was never asked
+                    cells = [(pred, names, [])]
+                    for ga, gw in guarded:
+                        nxt = []
+                        for cpred, cnames, gs in cells:
+                            gset = allv if gw == 'ALL' else gw
+                            if cnames is not None and gset is not None and allv is not None:
+                                inside, outside = cnames & gset, cnames - gset
+                                if inside:
+                                    nxt.append((canon.render(ty, inside), inside, gs + [ga]))
+                                if outside:
+                                    nxt.append((canon.render(ty, outside), outside, gs))
+                            else:
+                                nxt.append((cpred, cnames, gs + [ga]))
+                        cells = nxt
+                    for cpred, cnames, gs in cells:
+                        ap = p.fork()
+                        self.add_pat_cond(ap, v, cpred, cnames)
+                        for ga in gs:
+                            genv = dict(p.env)
+                            self.ev.bind_pat(ga['pat'], v, genv)
+                            n0 = len(self.ev.events)
+                            gt0 = self.ev.eval(ga['guard'], genv, [], None, [])
+                            del self.ev.events[n0:]
+                            ap.conds = canon.simplify(ap.conds + canon.cond(gt0, False))
+                        self.ev.bind_pat(a['pat'], v, ap.env)
+                        if a.get('guard') is not None:
+                            gt = self.leaf(a['guard'], ap)
+                            ap.conds = canon.simplify(ap.conds + canon.cond(gt, True))
+                        out.extend(self.run(a['body'], ap))
                     if a.get('guard') is not None:
-                        gt = self.leaf(a['guard'], ap)
-                        ap.conds.append((S.show(gt), True))
-                    out.extend(self.run(a['body'], ap))
+                        guarded.append((a, w))
+                    elif w == 'ALL':
+                        earlier.append(allv)
+                    else:
+                        earlier.append(w)
             return out
         if k == 'Ret':
             if node.get('e') is None:
